@@ -27,10 +27,12 @@ typedef struct rp {
 	int      eof; // peer (nng) closed
 	long     wr_calls, rd_calls;
 	size_t   wr_total; // bytes the kernel accepted from us so far
+	long     rd_total; // bytes read from nng so far
 } rp;
 
 // socket:// : create a socketpair, hand one end to the nng listener (NNG_OPT_SOCKET_FD), keep the other
 int rp_attach_socket(rp *p, nng_listener l);
+extern int rp_socket_sndbuf; // > 0: SO_SNDBUF for nng's end of the next socket pairs (0 = kernel default)
 // connect to an nng listener on ipc:///path or tcp://127.0.0.1:port
 int rp_connect_ipc(rp *p, const char *path);
 int rp_connect_tcp(rp *p, int port);
